@@ -68,7 +68,7 @@ def _case(i):
             obs = P.run_interp(C.HYEONG, path, level, sb)
             if obs.kind == 'cpu':
                 # the model predicts termination within the step budget: re-run once alone before judging
-                obs = P.run_interp(C.HYEONG, path, level, sb, cpu=60)
+                obs = P.run_interp(C.HYEONG, path, level, sb, cpu=30)
             d = P.compare_runs(base, obs, lenient_encerr=True)
             if d is None:
                 continue
@@ -127,7 +127,8 @@ def main(tier, seed):
     n = 1500 if tier == 'quick' else 40000
     rundir = C.mktmp(PID)
     _RUN.update(tier=tier, seed=seed, dir=rundir)
-    results = C.pmap(_case, list(range(n)), chunksize=8)
+    results = C.pmap(_case, list(range(n)), chunksize=4, stop_after_bad=60,
+                     is_bad=lambda r: any(it[0] == 'v' for it in r['items']))
     hist, srcs, featc, rejects = {}, {}, {}, {}
     evaluated = 0
     nontrivial = set()
